@@ -426,6 +426,10 @@ class FuncFacts:
                 # the parameters are defined there
                 defs = self.rd.reaching_after(e.id, at)
             if not defs:
+                # a module-level constant (_DUMMY_DIM = "dummy_dim") reads as the constant
+                mv = getattr(self.fn.module, "assigns", {}).get(e.id)
+                if isinstance(mv, ast.Constant) and not any(isinstance(n, ast.Name) and n.id == e.id and isinstance(n.ctx, ast.Store) for n in walk_no_nested(self.fn.node)):
+                    return [Path(Atom("const", repr(mv.value), mv), (), at)]
                 return [Path(Atom("name", e.id, e), (), at)]
             return self._from_defs(e.id, defs, at, stack, env, spine, e)
         if is_self_attr(e):
